@@ -133,13 +133,20 @@ def benign_all(extra):
         meta = json.load(open(os.path.join(benign_dir, "meta.json"), encoding="utf-8"))
         prop = meta["property_check_that_alarms"][:3]
         out_dir = tempfile.mkdtemp(prefix="seed-detect-")
-        code, out = sh(["git", "-C", "/repo", "apply", os.path.join(benign_dir, "patch.diff")])
-        if code != 0:
-            results.append({"id": os.path.basename(benign_dir.rstrip("/")), "status": "PATCH-DOES-NOT-APPLY"})
-            print(json.dumps(results[-1]))
-            continue
+        patch = os.path.join(benign_dir, "patch.diff")
+        if os.path.exists(patch) and os.path.getsize(patch):  # (no patch: a false alarm on the unchanged library)
+            code, out = sh(["git", "-C", "/repo", "apply", patch])
+            if code != 0:
+                results.append({"id": os.path.basename(benign_dir.rstrip("/")), "status": "PATCH-DOES-NOT-APPLY"})
+                print(json.dumps(results[-1]))
+                continue
         try:
-            code, out = sh([PY, "/verif/check.py", prop] + extra, env=dict(os.environ, VERIF_OUT=out_dir), timeout=7200)
+            env = dict(os.environ, VERIF_OUT=out_dir, **(meta.get("env") or {}))
+            code, out = sh([PY, "/verif/check.py", prop] + extra, env=env, timeout=7200)
+            for replay in meta.get("replays") or []:
+                replay_code, replay_out = sh([PY, "/verif/check.py", "--replay", os.path.join(benign_dir, replay)],
+                                             env=env, timeout=600)
+                code, out = max(code, replay_code), out + replay_out
         finally:
             sh(["git", "-C", "/repo", "checkout", "--", "."])
             sh(["git", "-C", "/repo", "clean", "-fdq", "src"])
